@@ -196,11 +196,28 @@ def run(ctx, rep):
                         mon.phase = "caller-evaluation"
                         for isl in islands:
                             isl.evaluate_population()
+                    if rng.random() < 0.4:
+                        # a hall-of-fame update (or an evolve call of zero generations) on an optimizer that has never evolved
+                        mon.phase = "hall-of-fame update before the first generation"
+                        log.append("event")
+                        if rng.random() < 0.5:
+                            opt.update_hall_of_fame()
+                        else:
+                            opt.evolve(0)
+                        rep.count("history_event", "hof update on a fresh optimizer")
                     for g in range(rng.randrange(1, 7)):
                         mon.phase = "evolve"
                         opt.evolve(1)
                         mon.phase = "best-individual"
                         opt.get_best_fitness()
+                        if rng.random() < 0.3:
+                            # reset_fitness (what a migration does) directly followed by a hall-of-fame update
+                            log.append("event")
+                            for isl in islands:
+                                isl.reset_fitness()
+                            mon.phase = "hall-of-fame update after reset_fitness"
+                            opt.update_hall_of_fame()
+                            rep.count("history_event", "hof update after reset_fitness")
                         mon.active = False
                         audit(rep, truth, [("population", isl.population) for isl in islands] +
                               [("hall of fame", list(opt.hall_of_fame))], f"generation {g + 1}", case)
@@ -212,7 +229,7 @@ def run(ctx, rep):
                     continue
             if not use_arch and "variation" in log:
                 a = log.index("variation")
-                b = next((i for i in range(a + 1, len(log)) if log[i] == "variation"), len(log))
+                b = next((i for i in range(a + 1, len(log)) if log[i] in ("variation", "event")), len(log))
                 step = log[a:b]
                 if any(p.startswith("select") for p in step):       # a complete generational step
                     observed.setdefault(kind, set()).add(tuple(p for p in step))
